@@ -5784,9 +5784,12 @@ Qed.
 Example judged_nv_ok_nonvacuous :
   let bs := [[HEnter 1; HState 2; HAnyState]] in
   let tr := run 100 (init_st ex_sch2 [] [] 3 bs 1000 []) [ex_add [0]] in
-  exists t, nth_error (tr_txs tr) 1 = Some t /\ tx_auto t = true /\ tx_called t = [1; 2] /\
-    tx_accepted t = true /\
+  match nth_error (tr_txs tr) 1 with
+  | Some t =>
+    tx_auto t = true /\ tx_called t = [1; 2] /\ tx_accepted t = true /\
     map (fun h => (hl_key h, hl_ret h)) (slice (tr_hlog tr) (tx_hfrom t) (tx_hto t))
       = [(HEnter 1, true); (HState 2, true); (HAnyState, true)] /\
-    judged_codes ex_sch2 [] (tr_hlog tr) t = [].
-Proof. cbv zeta. eexists. vm_compute. repeat split; reflexivity. Qed.
+    judged_codes ex_sch2 [] (tr_hlog tr) t = []
+  | None => False
+  end.
+Proof. vm_compute. repeat split; reflexivity. Qed.
